@@ -14,6 +14,9 @@ ASSUMPTIONS = ["small dyadic weights and inputs: float64 arithmetic is exact on 
 def gen_scenario(rng, i):
     nodes, edges, entries, din = scengen.gen_dag(rng)
     sc = {"nodes": nodes, "models": scengen.chain_models(nodes, edges), "ops": [], "entries": entries, "din": din, "tag": i}
+    if len(nodes) >= 3 and rng.random() < 0.35:
+        # same graph assembled in place:  Model(first nodes) &= Model(rest)
+        sc["models"][0].update(build="iand", cut=rng.randint(1, len(nodes) - 1))
     T = rng.randint(1, 5)
     sc["ops"].append({"op": "run", "model": 0, "X": scengen.rows(rng, T, din)})
     sc["ops"].append({"op": "call", "model": 0, "x": scengen.rows(rng, 1, din)[0]})
